@@ -18,7 +18,7 @@ CONFIG = 'crates/anemo/src/config.rs'
 TYPES = P.TYPES
 TIMEOUT = 600
 # vacuity guard: cover points that must be reached: history: an add onto an existing entry; ticks: a dial, a re-dial after 1 failure, after 2
-COVER = {'active_peers_history': [0, 1], 'who_is_dialed': [0], 'background_dialing_ticks': [0, 1, 3, 4], 'dial_races_inbound_connect': [0, 3, 5]}
+COVER = {'active_peers_history': [0, 1], 'who_is_dialed': [0], 'background_dialing_ticks': [0, 1, 3, 4], 'dial_races_inbound_connect': [0, 3, 5], 'closed_connection_bookkeeping': [0, 1, 2]}
 
 PRELUDE = r'''// GENERATED on every run by /verif/vc from /repo's working tree -- do not edit
 #![allow(dead_code, unused, non_upper_case_globals, non_camel_case_types, static_mut_refs)]
@@ -133,6 +133,7 @@ pub struct Endpoint { pub id: PeerId }
 impl Endpoint { pub fn peer_id(&self) -> PeerId { self.id } }
 // crate::connection::Connection: clones share the underlying connection; whether connection `sid` was closed is a static table
 pub static mut CLOSED: [bool; 32] = [false; 32];
+pub static mut REMOTE_CLOSED: [bool; 32] = [false; 32];      // the other side (or the transport) already ended connection `sid`
 pub fn is_closed(sid: usize) -> bool { unsafe { CLOSED[sid] } }
 #[derive(Clone, Debug)]
 pub struct Connection { pub sid: usize, pub peer: PeerId, pub orig: ConnectionOrigin }
@@ -142,6 +143,9 @@ impl Connection {
     pub fn stable_id(&self) -> usize { self.sid }
     pub fn time_established(&self) -> Instant { Instant(unsafe { ESTABLISHED_NS[self.sid] }) }
     pub fn close(&self) { unsafe { CLOSED[self.sid] = true; } }
+    // observers an edit may reach for (quinn: close_reason; a derived is_closed)
+    pub fn is_closed(&self) -> bool { unsafe { CLOSED[self.sid] || REMOTE_CLOSED[self.sid] } }
+    pub fn close_reason(&self) -> Option<ConnectionError> { unsafe { if REMOTE_CLOSED[self.sid] { Some(ConnectionError::ConnectionClosed(())) } else if CLOSED[self.sid] { Some(ConnectionError::LocallyClosed) } else { None } } }
 }
 pub struct Svc;
 impl Svc { pub fn clone(&self) -> Svc { Svc } }
@@ -196,7 +200,7 @@ impl Chooser {
     pub fn any_bool(&mut self) -> bool { self.below(2) == 1 }
 }
 fn reset_statics() {
-    unsafe { EVENT_LEN = 0; ONESHOT_NEXT = 0; CLOCK_NS = 1_000_000_000_000; let mut i = 0; while i < 32 { EVENT_LOG[i] = None; ONESHOT[i] = None; CLOSED[i] = false; ESTABLISHED_NS[i] = 1_000_000_000_000; i += 1; } }
+    unsafe { EVENT_LEN = 0; ONESHOT_NEXT = 0; CLOCK_NS = 1_000_000_000_000; let mut i = 0; while i < 32 { EVENT_LOG[i] = None; ONESHOT[i] = None; CLOSED[i] = false; REMOTE_CLOSED[i] = false; ESTABLISHED_NS[i] = 1_000_000_000_000; i += 1; } }
 }
 fn run_all(name: &str, f: fn(&mut Chooser)) {
     let mut path: Vec<(u32, u32)> = Vec::new();
@@ -227,7 +231,7 @@ pub fn main() {
     if args.len() == 4 && args[1] == "--replay" {
         // re-run ONE choice sequence with the panic message visible
         let choices: Vec<(u32, u32)> = args[3].split(',').filter(|s| !s.is_empty()).map(|s| (s.trim().parse().unwrap(), u32::MAX)).collect();
-        let f: fn(&mut Chooser) = match args[2].as_str() { "active_peers_history" => harness::active_peers_history, "mutual_dial_converges" => harness::mutual_dial_converges, "who_is_dialed" => harness::who_is_dialed, "dial_races_inbound_connect" => harness::dial_races_inbound_connect, _ => harness::background_dialing_ticks };
+        let f: fn(&mut Chooser) = match args[2].as_str() { "active_peers_history" => harness::active_peers_history, "mutual_dial_converges" => harness::mutual_dial_converges, "who_is_dialed" => harness::who_is_dialed, "dial_races_inbound_connect" => harness::dial_races_inbound_connect, "closed_connection_bookkeeping" => harness::closed_connection_bookkeeping, _ => harness::background_dialing_ticks };
         reset_statics();
         let mut ch = Chooser { path: choices, pos: 0 };
         f(&mut ch);
@@ -240,6 +244,7 @@ pub fn main() {
     run_all("who_is_dialed", harness::who_is_dialed);
     run_all("background_dialing_ticks", harness::background_dialing_ticks);
     run_all("dial_races_inbound_connect", harness::dial_races_inbound_connect);
+    run_all("closed_connection_bookkeeping", harness::closed_connection_bookkeeping);
 }
 pub mod harness {
     use super::*;
@@ -363,6 +368,48 @@ pub mod harness {
         let cap: usize = if ch.any_bool() { 1 } else { 100 };
         let naddr: [usize; 2] = [1 + ch.below(2) as usize, 1 + ch.below(2) as usize];
         dialing_run(ch, cap, [P1, P2], [PeerAffinity::High, PeerAffinity::High], naddr, false, 4, false);
+    }
+    pub fn closed_connection_bookkeeping(ch: &mut Chooser) { // @EOBL [C09,C04] @BOUNDED every sequence of 3 operations (register connection 0 / register connection 1 through ConnectionManager::add_peer, explicit disconnect, exit of a running handler) over two connections of one peer, each of which may ALREADY have been ended by the remote side or the transport when the operation runs: after every step the event log replays to the listing, every listed connection has a running handler (the one whose exit reports its loss), and an explicit disconnect of a listed peer removes it at once and appends exactly LostPeer(peer, Requested)
+        let config = Arc::new(Config { max_concurrent_outstanding_connecting_connections: Some(100), connection_backoff_ms: Some(10_000), max_connection_backoff_ms: Some(60_000), max_concurrent_connections: None });
+        let mut cm = ConnectionManager {
+            config, endpoint: Arc::new(Endpoint { id: ME }), mailbox: mpsc::Receiver { _t: std::marker::PhantomData },
+            pending_connections: JoinSet::new(), connection_handlers: JoinSet::new(), pending_dials: HashMap::default(), dial_backoff_states: HashMap::default(),
+            active_peers: ActivePeers::new(8), known_peers: KnownPeers::new(), service: Svc,
+        };
+        let conns = [conn(20, P1, any_origin(ch)), conn(21, P1, any_origin(ch))];
+        unsafe { REMOTE_CLOSED[20] = ch.any_bool(); REMOTE_CLOSED[21] = ch.any_bool(); }
+        if unsafe { REMOTE_CLOSED[20] || REMOTE_CLOSED[21] } { cover(0); }
+        let mut added = [false; 2];
+        let mut running: Vec<usize> = Vec::new();          // handlers spawned and not yet exited
+        let mut step = 0;
+        while step < 3 {
+            let op = ch.below(4);
+            let handlers_before = cm.connection_handlers.tasks.len();
+            if op < 2 {
+                let k = op as usize;
+                if !added[k] { added[k] = true; cm.add_peer(conns[k].clone());
+                    let mut t = handlers_before; while t < cm.connection_handlers.tasks.len() { if let Task::Handler(sid) = &cm.connection_handlers.tasks[t] { running.push(*sid); } t += 1; } }
+            } else if op == 2 {
+                let listed = cm.active_peers.0.cell.borrow().connections.contains_key(&P1);
+                let ev0 = event_len();
+                cm.active_peers.remove(&P1, DisconnectReason::Requested);
+                assert!(!cm.active_peers.0.cell.borrow().connections.contains_key(&P1), "an explicit disconnect left the peer listed");
+                if listed { cover(1);
+                    assert!(event_len() == ev0 + 1 && matches!(event(ev0), PeerEvent::LostPeer(p, DisconnectReason::Requested) if p == P1), "an explicit disconnect of a listed peer must append exactly LostPeer(peer, Requested)"); }
+                else { assert!(event_len() == ev0, "disconnecting a peer that is not listed must not emit an event"); }
+            } else if !running.is_empty() {
+                let sid = running.remove(0);
+                let k = sid - 20;
+                let mut inflight: JoinSet<()> = JoinSet::new();
+                block_on(inbound_request_handler_start_tail(&cm.active_peers, &conns[k], ConnectionError::ConnectionClosed(()), &mut inflight));
+            }
+            // ---- after every step ----
+            let inner = cm.active_peers.0.cell.borrow();
+            let listed = inner.connections.contains_key(&P1);
+            assert!(replay(event_len()) == Some((listed, false)), "the event log no longer replays to the listing");
+            if let Some(c) = inner.connections.get(&P1) { cover(2); assert!(running.contains(&c.sid), "a listed connection has no running handler: its loss would never be reported"); }
+            step += 1;
+        }
     }
     pub fn dial_races_inbound_connect(ch: &mut Chooser) { // @EOBL [C13,C06] @BOUNDED every run of 3 connectivity checks over 2 High-affinity peers (one address each, no cap) in which a peer that is being dialed may itself connect to us before that dial completes, the dial then failing, succeeding or staying in flight: the connection manager never panics (in particular every dial it started is answered to whoever waits for it), never dials a connected peer, and the back-off / rotation / one-dial-per-peer rules still hold
         dialing_run(ch, 100, [P1, P2], [PeerAffinity::High, PeerAffinity::High], [1, 1], false, 3, true);
